@@ -8,6 +8,7 @@ package absnfs
 // is the real code.
 
 import (
+	"crypto/tls"
 	"errors"
 	"net"
 	"sync"
@@ -195,4 +196,21 @@ func VPH_C28_start() {
 	}
 	l.Close()
 	pml.Close()
+}
+
+// vpTLSListen stands in for tls.Listen in the code under test: it records the configuration the
+// server built for its listener (C30) and hands out the stub listener for the address.
+var vpTLSListenConfigs []*tls.Config
+
+func vpTLSListen(network, addr string, cfg *tls.Config) (net.Listener, error) {
+	if vpListeners != nil {
+		vpTLSListenConfigs = append(vpTLSListenConfigs, cfg)
+		if l, ok := vpListeners[addr]; ok {
+			return l, nil
+		}
+		if l, ok := vpListeners[""]; ok {
+			return l, nil
+		}
+	}
+	return tls.Listen(network, addr, cfg)
 }
